@@ -138,7 +138,7 @@ func RunCase(dir string, c WCase) (res WRes) {
 	defer func() {
 		if r := recover(); r != nil {
 			if s, ok := r.(string); ok && s == RecursionSentinel {
-				res = WRes{Class: "unbounded-recursion", Sig: "unbounded-recursion"}
+				res = WRes{Class: "unbounded-recursion", Sig: "unbounded-recursion", PanicMsg: "(*Parser).parse nested deeper than the depth limit of the generated counter"}
 				return
 			}
 			pc, msg := ClassifyPanic(r)
